@@ -16,6 +16,8 @@ var checks = map[string]func(job *Job, r *Report){
 	"C18": C18,
 	"C13": C13,
 	"C08": C08,
+	"C06": C06,
+	"C07": C07,
 }
 
 // Main is the entry point of vworker.
@@ -119,6 +121,10 @@ func xspecsFor(check, tier string) []*XSpec {
 		return c13Specs(tier)
 	case "C08":
 		return c08Specs(tier)
+	case "C06":
+		return c06Specs(tier)
+	case "C07":
+		return c07Specs(tier)
 	}
 	return nil
 }
